@@ -341,7 +341,8 @@ class ResolveAnchorIds(Transform):
                 self.document,
                 f"'myst' reference target not found: {target!r}",
                 MystWarnings.XREF_MISSING,
-                line=refnode.line,
+                # not only the line: the link can be in an included file
+                node=refnode,
                 append_to=refnode,
             )
             refnode["refid"] = normalizeLink(target)
